@@ -265,5 +265,22 @@ CHECKS["C08"] = dict(
           dict(name="burst", test="^TestBurstWhileWatcherSlow$", kind="plain", quick=dict(n=2, procs=1, timeout=300), thorough=dict(n=20, procs=1, timeout=600))],
 )
 
+CHECKS["C18"] = dict(
+    level="exploration",
+    technique="end-to-end stateful property testing (rapid): generated subscribe/unsubscribe/link/disconnect/status/watch histories of named connections; oracle: "
+              "reference matcher for status, expected notification sequence per watcher; presence-queue sentinel barrier",
+    level_text="Histories of <=30 operations by 2-4 connections with usernames on a/, a/b/, a/b/c/, x/: subscribe, unsubscribe, link auto-subscribe, going away "
+               "(close or DISCONNECT), presence status requests for exact and parent channels, and a watcher that asks for / cancels presence changes on a/, "
+               "a/b/, x/. After every operation both a permanent watcher and the toggling watcher must have received exactly the expected notifications "
+               "(one subscribe per new subscription on or below a watched channel, one unsubscribe when it ends, per-connection order, usernames, none after "
+               "cancel), and every status response must list exactly the connections the reference matcher says would receive a publish, with usernames. "
+               "A second leg saturates the 100-slot presence queue behind a non-reading watcher and checks that order is preserved.",
+    level_note="Trusted: paho codec, ids learned from emitter/me, the sentinel barrier through the presence queue (single FIFO goroutine) observed by a permanent "
+               "watcher - which makes 'none after cancel' conclusive. Cluster survey answers no peers.",
+    rule="rapid-generated histories; non-trivial = >=2 transitions, a connection going away and the toggling watcher notified at least once; distinct = distinct case value.",
+    legs=[dict(name="presence", test="^TestPresence$", quick=dict(n=300, procs=4, timeout=400), thorough=dict(n=30000, procs=14, timeout=3000)),
+          dict(name="backlog", test="^TestOrderUnderBacklog$", kind="plain", quick=dict(n=2, procs=1, timeout=300), thorough=dict(n=20, procs=1, timeout=900))],
+)
+
 for _k in CHECKS:
     NOT_APPLICABLE.pop(_k, None)
